@@ -199,3 +199,5 @@ Proof.
     rewrite Hacts. apply in_or_app. right. unfold multicast_actions. apply in_or_app. right. apply in_or_app. right.
     pose proof (inset_nonempty _ _ Hl) as Hne. destruct (qa_mcast_last_second qa); [contradiction|left; reflexivity].
 Qed.
+
+Print Assumptions srv_nstep_pending.
